@@ -1,6 +1,7 @@
 HOOK_COMMITS = []
 _NOTE = ('Trusted base: CPython, NumPy/SciPy/flexsolve/chemicals/thermo/pint as installed in /venv, the reference models in '
          '/verif/mc/systems (plain Python), NUMBA_DISABLE_JIT=1 (kernels run as Python source, like the pinned suite). '
+         'Process-global library state that could alias executions (lookup caches, interned solver objects, class-level memos, module flags, the default property package) is owned by the harness: reset before every execution and, where it is the subject of the property, part of the canonical state. Listed known findings (known_findings.json) suppress only violations with the same clause and match fields; witnesses of repaired defects are replayed on every run. '
          'Nothing is claimed outside the finite alphabets and bounds written to the evidence file.')
 CHECKS = {
  'C18': dict(
